@@ -14,29 +14,56 @@
      op 6  built-in distributions without a quantile method and without an exact model here
            (TDist, UDist, KDE), relational (oracle instantiation: F := the implementation's own CDF,
            reported by the harness at the points the statement needs):
-           7 6 kind  bl bh cbl cbh  ny { y st x xm c0 cm }*
-           bl bh = Bounds(), cbl = CDF(bl), cbh = CDF(bh), x = InvCDF(y), xm = x - tol, c0 = CDF(x), cm = CDF(xm)
+           7 6 kind par own  bl bh cbl cbh cpl cph  ny { y st x xm c0 cm xp cp rst ref }*  nr { g m }*
+           par: the first parameter (TDist: V);  own: bit 0 the distribution has its own InvCDF method, bit 1 its own Rand method;
+           bl bh = Bounds(), cbl = CDF(bl), cbh = CDF(bh), cpl = CDF(-2^1023), cph = CDF(2^1023) (the last
+           finite probes of the bracket expansion), x = InvCDF(y), xm = x - tol, c0 = CDF(x), cm = CDF(xm);
+           ref = the distribution's own method at y (own bit 0) / stats.InvCDF of a bare wrapper that
+           forwards only CDF and Bounds (otherwise): x and ref must be the same bits;
+           g m = stats.Rand(d)(r) next to the reference generator (own Rand method / InvCDF(d) at the
+           first non-zero value of an equally seeded source)
+           kinds: 0 TDist 1 UDist 2 KDE 3 Binomial 4 Hypergeometric 5 Normal 6 Delta 7 harness geometric
+           8 harness Poisson (7, 8: full DiscreteDist, infinite support, approximate Bounds) 9 harness atom +
+           exponential tail (mixed) 10 harness two-sided power law (continuous, heavy tails)
+     op 8  Kolmogorov-Smirnov distance computed HERE: the n draws of stats.Rand with a seeded math/rand
+           source, sorted by the harness, against the exact pw_cdf:   7 8  nk { x l v }*  bl bh  st  n { draw }*
+     op 7  Rand on a relational-kind distribution with a scripted source:
+           7 7 kind par own  bl bh cbl cbh cpl cph  nsrc { int63 }*  st consumed y draw  { y ist x xm c0 cm rst ref }
    All of x l v bl bh y obs ... are float64 bit patterns; st: 0 = returned, 2 = panicked.
    knot (x, l, v): break point, left limit, value (see Model/InvCDF.v). *)
 From MM Require Import Base.Num Model.Choose Model.Binom Model.Hyperg Model.InvCDF Check.C06.
 From Coq Require Import Qround.
 Local Open Scope Z_scope.
 
-(* "to within 1e-9 relative": 1e-9 |x*| + 1e-9 scale, scale = largest |break point| (where the
-   distribution is located) *)
+(* "to within 1e-9 relative": 1e-9 |x*|, plus what the harness's OWN float64 evaluation of a ramp costs:
+   v = lo + ((x - xi) / W) * H is computed with four roundings, an absolute error below 2^-51 in v, which
+   moves the point where the computed cdf crosses y by less than 2^-51 * W / H (W, H = width and height of
+   the ramp).  Jumps and flats are decided by comparisons only: no slack there. *)
 Definition e9 : Q := 1 # 1000000000.
-Definition tol_x (scale q : Q) : Q := (e9 * Qabs q + e9 * scale)%Q.
-(* bisectBool stops when high - low <= xtol = 1e-16 (dist.go:124, alg.go:90): near 0 the result is only
-   ABSOLUTELY accurate.  A result within 2e-16 of the quantile but outside the relative tolerance is
-   reported under its own signature (verdict code 10 = "xtol-limited accuracy near 0"), which counts as
-   a violation unless KNOWN_FINDINGS.txt lists it.  The default generators keep break points at 0 or
-   >= 2^-22 in magnitude, where the relative tolerance already covers 1e-16. *)
-Definition xtol_window : Q := 1 # 5000000000000000.
-Definition V_XTOL : Z := 10.
-(* slack on "CDF(result) >= y": the harness evaluates a ramp in float64 (two roundings) *)
-Definition eps_level : Q := 1 # 1000000000000.
+Definition ramp_unit : Q := 1 # 1125899906842624.   (* 2^-50 *)
+(* slack for the quantile at level y: 0 at a jump, 2^-50 W/H on a ramp *)
+Fixpoint ramp_slack_from (px pv : Q) (rest : pwf) (y : Q) : Q :=
+  match rest with
+  | [] => 0
+  | (xi, li, vi) :: r =>
+      if Qle_bool y li then (if Qeq_bool li pv then 0 else ramp_unit * (xi - px) / (li - pv))%Q
+      else if Qle_bool y vi then 0
+      else ramp_slack_from xi vi r y
+  end.
+Definition ramp_slack (pw : pwf) (y : Q) : Q :=
+  match pw with
+  | [] => 0
+  | (x0, _, v0) :: r => if Qle_bool y v0 then 0 else ramp_slack_from x0 v0 r y
+  end.
+Definition tol_x (pw : pwf) (y q : Q) : Q := (e9 * Qabs q + ramp_slack pw y)%Q.
+(* slack on "CDF(result) >= y": the harness evaluates a ramp in float64 *)
+Definition eps_level : Q := 1 # 1000000000000000.
 (* halvings of the model bisection the observed value is enclosed by *)
 Definition model_halvings : nat := 12.
+
+(* y = NaN: the property demands nothing for a NaN argument (the pinned code panics in bisectBool, the
+   model says IPanic; NormalDist's method returns NaN, DeltaDist's returns T): whatever happens is accepted *)
+Definition nan_arg_ok (st : Z) (obs : xreal) : bool := true.
 
 Definition xdiag (x : xreal) : list Z :=
   match x with XNaN => [0] | XInf b => [1; if b then 1 else 0] | XFin q => 2 :: qdiag q end.
@@ -61,6 +88,48 @@ Definition T_EXACTLEVEL := 32768.  (* y equals a level of the cdf at a knot *)
 Definition T_BORDER := 65536.
 Definition T_KS := 131072.
 Definition T_REL := 262144.   (* relational check against the implementation's own CDF *)
+Definition T_OVERFLOW := 524288.  (* 0 < y < 1 answered by +-Inf: the bracket expansion overflowed *)
+
+(* ---------- "non-decreasing in y" on the observed values of one case ----------
+   (Proofs: invcdf_generic_monotone_in_y holds for ANY F; the float64 bisection inherits it: two levels
+   share the probes, and the first mid point at which they part separates the two results) *)
+Definition xr_leb (tolrel : Q) (a b : xreal) : bool :=
+  match a, b with
+  | XNaN, _ | _, XNaN => false
+  | XInf true, _ | _, XInf false => true
+  | XInf false, _ | _, XInf true => false
+  | XFin p, XFin q => Qle_bool p (q + tolrel * Qabs q)%Q
+  end.
+(* first pair (i, j) with y_i <= y_j and not x_i <= x_j *)
+Fixpoint mono_against (tolrel : Q) (i : Z) (yi : Q) (xi : xreal) (rest : list (Z * Q * xreal)) : option (Z * Z) :=
+  match rest with
+  | [] => None
+  | (j, yj, xj) :: r =>
+      if (Qle_bool yi yj && negb (xr_leb tolrel xi xj)) || (Qle_bool yj yi && negb (xr_leb tolrel xj xi)) then Some (i, j)
+      else mono_against tolrel i yi xi r
+  end.
+Fixpoint mono_check (tolrel : Q) (l : list (Z * Q * xreal)) : option (Z * Z) :=
+  match l with
+  | [] => None
+  | (i, yi, xi) :: r => match mono_against tolrel i yi xi r with Some p => Some p | None => mono_check tolrel r end
+  end.
+(* the regular items (0 < y < 1, returned) of a case with their indices *)
+Fixpoint mono_items (idx : Z) (items : list (xreal * Z * xreal)) : list (Z * Q * xreal) :=
+  match items with
+  | [] => []
+  | (XFin y, st, o) :: r =>
+      if Qltb 0 y && Qltb y 1 && (st =? 0) then (idx, y, o) :: mono_items (idx + 1) r else mono_items (idx + 1) r
+  | _ :: r => mono_items (idx + 1) r
+  end.
+(* run after the per-level checks: a violation is a mismatch at the second index, diag [13; i; j] *)
+Definition with_mono (tolrel : Q) (items : list (xreal * Z * xreal)) (r : Z * option (Z * list Z)) : Z * option (Z * list Z) :=
+  match r with
+  | (tag, None) => match mono_check tolrel (mono_items 0 items) with
+                   | Some (i, j) => (tag, Some (j, [13; i; j]))
+                   | None => r
+                   end
+  | _ => r
+  end.
 
 (* Dvoretzky-Kiefer-Wolfowitz (Massart): P (D_n > e) <= 2 exp (-2 n e^2).  False-alarm bound 1e-9:
    2 n D^2 <= ln (2e9) = 21.4164...  (the logarithm is a constant here, rounded up) *)
@@ -88,9 +157,9 @@ Fixpoint flat_at (pw : pwf) (y : Q) : bool :=
 
 (* ---------- one requested level on a piecewise distribution ---------- *)
 (* result: tag, None = agrees | Some diag *)
-Definition check_pw_y (pw : pwf) (bl bh scale : Q) (y : xreal) (st : Z) (obs : xreal) : Z * option (list Z) :=
+Definition check_pw_y (pw : pwf) (bl bh : Q) (y : xreal) (st : Z) (obs : xreal) : Z * option (list Z) :=
   match y with
-  | XNaN => (T_PANIC, if st =? 2 then None else Some [1])
+  | XNaN => (T_PANIC, if nan_arg_ok st obs then None else Some [1])
   | XInf _ => (T_NAN, if (st =? 0) && is_nan obs then None else Some [2])
   | XFin yq =>
       match inv_special (pw_cdf pw) bl bh yq with
@@ -98,19 +167,26 @@ Definition check_pw_y (pw : pwf) (bl bh scale : Q) (y : xreal) (st : Z) (obs : x
           (match r with XNaN => T_NAN | XInf _ => Z.lor T_SPECIAL T_INF | XFin _ => T_SPECIAL end,
            if (st =? 0) && xeq r obs then None else Some (3 :: xdiag r))
       | None =>
-          match pw_quantile pw yq, invcdf_core (pw_cdf pw) go_expand_fuel model_halvings yq with
+          match pw_quantile pw yq, invcdf_core_fast (pw_cdf pw) model_halvings yq with
+          | Some q, None =>
+              (* no finite bracket: the doubling overflowed (quantile beyond -+2^1023), the closure returns -+Inf *)
+              match bracket_fast (pw_cdf pw) yq with
+              | BInf neg =>
+                  (Z.lor T_REG (Z.lor T_OVERFLOW (Z.lor T_FAR (if neg then T_LEFT else T_RIGHT))),
+                   if (st =? 0) && xeq (XInf neg) obs then None else Some (12 :: (if neg then 1 else 0) :: qdiag q))
+              | _ => (0, Some [99])
+              end
           | Some q, Some ((lo, hi), (x1, x2)) =>
               let tag := Z.lor T_REG (Z.lor (if goes_right (pw_cdf pw) yq then T_RIGHT else T_LEFT)
                          (Z.lor (if Qle_bool 4 (hi - lo) then T_FAR else 0)
                          (Z.lor (q_kind pw yq) (if flat_at pw yq then T_FLAT else 0)))) in
               match obs with
               | XFin o =>
-                  let tol := tol_x scale q in
+                  let tol := tol_x pw yq q in
                   if negb (st =? 0) then (tag, Some (4 :: qdiag q))
-                  else if negb (within (tol + xtol_window) q o) then (tag, Some (5 :: qdiag q))   (* not the quantile *)
-                  else if negb (within tol q o) then (tag, Some (98 :: qdiag q))               (* only absolutely accurate: xtol *)
+                  else if negb (within tol q o) then (tag, Some (5 :: qdiag q))   (* not the quantile *)
                   else if negb (Qle_bool (yq - eps_level) (pw_cdf pw o)) then (tag, Some (6 :: qdiag q))  (* CDF(result) < y: not the upper end *)
-                  else if negb (Qle_bool (x1 - tol - xtol_window) o && Qle_bool o (x2 + tol + xtol_window)) then (tag, Some (7 :: qdiag x1 ++ qdiag x2))
+                  else if negb (Qle_bool (x1 - tol) o && Qle_bool o (x2 + tol)) then (tag, Some (7 :: qdiag x1 ++ qdiag x2))
                   else (tag, None)
               | _ => (tag, Some (4 :: qdiag q))
               end
@@ -122,19 +198,18 @@ Definition check_pw_y (pw : pwf) (bl bh scale : Q) (y : xreal) (st : Z) (obs : x
 Definition p_knot : parser knot := do x <- pQ; do l <- pQ; do v <- pQ; pret (x, l, v).
 Definition p_item : parser (xreal * Z * xreal) := do y <- pX; do st <- pZ; do o <- pX; pret (y, st, o).
 
-Fixpoint run_pw_items (pw : pwf) (bl bh scale : Q) (items : list (xreal * Z * xreal)) (idx tag : Z)
+Fixpoint run_pw_items (pw : pwf) (bl bh : Q) (items : list (xreal * Z * xreal)) (idx tag : Z)
   : Z * option (Z * list Z) :=
   match items with
   | [] => (tag, None)
   | (y, st, o) :: rest =>
-      let '(t, r) := check_pw_y pw bl bh scale y st o in
+      let '(t, r) := check_pw_y pw bl bh y st o in
       match r with
-      | None => run_pw_items pw bl bh scale rest (idx + 1) (Z.lor tag t)
+      | None => run_pw_items pw bl bh rest (idx + 1) (Z.lor tag t)
       | Some dg => (Z.lor tag t, Some (idx, dg))
       end
   end.
 
-Definition pw_scale (pw : pwf) : Q := Qmaxabs (map (fun k : knot => fst (fst k)) pw).
 
 (* ---------- built-in discrete distributions ---------- *)
 (* exact cdf at the support points lo..hi: Model.InvCDF.disc_table; smallest support point with
@@ -157,7 +232,7 @@ Definition fast_table (t : table) : list (Z * Q) := fast_entries t 0 (length (t_
 
 Definition check_disc_y (tab : list (Z * Q)) (lo hi : Z) (y : xreal) (st : Z) (obs : xreal) : Z * option (list Z) :=
   match y with
-  | XNaN => (T_PANIC, if st =? 2 then None else Some [1])
+  | XNaN => (T_PANIC, if nan_arg_ok st obs then None else Some [1])
   | XInf _ => (T_NAN, if (st =? 0) && is_nan obs then None else Some [2])
   | XFin yq =>
       let cdf_lo := match tab with (_, c) :: _ => c | [] => 1%Q end in
@@ -178,7 +253,7 @@ Definition check_disc_y (tab : list (Z * Q)) (lo hi : Z) (y : xreal) (st : Z) (o
         | XFin o =>
             (* the bisection ends at the smallest float with CDF >= y: the support point itself *)
             let ko := Qfloor o in
-            if (st =? 0) && (k1 <=? ko) && (ko <=? k2) && Qle_bool (o - inject_Z ko) (e9 * inject_Z ko + xtol_window)%Q
+            if (st =? 0) && (k1 <=? ko) && (ko <=? k2) && Qle_bool (o - inject_Z ko) (e9 * inject_Z ko)%Q
             then (tag, None) else (tag, Some [5; k; k1; k2])
         | _ => (tag, Some [4; k; k1; k2])
         end
@@ -202,7 +277,6 @@ Definition finish (r : Z * option (Z * list Z)) : list Z :=
   | (tag, Some (idx, dg)) =>
       match dg with
       | [99] => verdict V_MALFORMED tag idx dg
-      | 98 :: d => verdict V_XTOL tag idx d
       | _ => verdict V_MISMATCH tag idx dg
       end
   end.
@@ -222,44 +296,114 @@ Fixpoint run_pairs (items : list (Z * Z)) (idx : Z) : option (Z * list Z) :=
   end.
 
 (* ---------- relational check (C07_invcdf_generic_regular with F := the reported CDF values):
-   the result x satisfies CDF(x) >= y, and CDF(x - tol) < y with tol <= 1.001e-9 |x| + 2e-15 (the harness forms x - tol in float64), i.e. x is
-   within the property's tolerance of the smallest point with CDF >= y; y = 0 / 1 by the end-point rule ---------- *)
-Definition check_rel_y (slack : Q) (bl bh cbl cbh : xreal) (y : xreal) (st : Z) (x xm c0 cm : xreal) : Z * option (list Z) :=
-  match y with
-  | XNaN => (T_PANIC, if st =? 2 then None else Some [1])
+   the result x satisfies CDF(x) >= y, and CDF(x - tol) < y with tol <= 1.001e-9 |x| + 2e-15 (the harness
+   forms x - tol in float64), i.e. x is within the property's tolerance of the smallest point with
+   CDF >= y; y = 0 / 1 by the end-point rule; -Inf / +Inf for 0 < y < 1 exactly when the last finite probe
+   of the expansion still has CDF >= y / CDF < y; and the DISPATCH clause: the bits of x are the bits of
+   the reference (own method, or the generic algorithm through a bare wrapper) ---------- *)
+(* step functions are evaluated exactly; a smooth float64 CDF is flat or noisy at the 1e-16 level where
+   its derivative vanishes (an Epanechnikov kernel's edge, t near 0) *)
+Definition rel_is_step (kind : Z) : bool :=
+  (kind =? 1) || (kind =? 3) || (kind =? 4) || (kind =? 6) || (kind =? 7) || (kind =? 8).
+(* slack on CDF(x - tol) < y.  TDist.CDF (an incomplete beta function in float64) is not monotone at the
+   1e-8 level for V > 1e7 (measured: up to 1.2e-8 over 1e-9 |x|; none in 10^6 samples for V <= 1e7): there
+   the implementation's own cdf defines its quantile only to that accuracy *)
+Definition rel_slack_hi (kind : Z) (par : xreal) : Q :=
+  if rel_is_step kind then 0
+  else if kind =? 0 then match par with XFin v => if Qle_bool v 10000000 then eps_level else 1 # 10000000 | _ => eps_level end
+  else eps_level.
+(* CDF(x) >= y: the generic algorithm returns a point where the comparison CDF(x) < y was evaluated and
+   false, so this is exact; a distribution's own method is held to CDF(x + tol) >= y - 1e-12 *)
+(* non-decreasing in y: exact for the generic algorithm, 1e-9 relative for an own method *)
+Definition rel_mono_tol (own : Z) : Q := if Z.land own 1 =? 0 then 0 else e9.
+
+Record relhdr := { rh_kind : Z; rh_par : xreal; rh_own : Z; rh_bl : xreal; rh_bh : xreal; rh_cbl : xreal; rh_cbh : xreal;
+                   rh_cpl : xreal; rh_cph : xreal }.
+Record relitem := { ri_y : xreal; ri_st : Z; ri_xb : Z; ri_xm : xreal; ri_c0 : xreal; ri_cm : xreal;
+                    ri_xp : xreal; ri_cp : xreal; ri_rst : Z; ri_refb : Z }.
+
+Definition check_rel_y (h : relhdr) (it : relitem) : Z * option (list Z) :=
+  let st := ri_st it in
+  let x := decode_bits (ri_xb it) in
+  let dtag := if Z.land (rh_own h) 1 =? 0 then 0 else T_DISPATCH in
+  (* dispatch / generic path, bit for bit *)
+  if negb ((st =? ri_rst it) && ((st =? 2) || (ri_xb it =? ri_refb it))) then (Z.lor T_REL dtag, Some [8; st; ri_xb it; ri_refb it; ri_rst it])
+  else
+  match ri_y it with
+  | XNaN => (* the generic closure panics; an own method may do what it likes: it IS the result *)
+      (T_PANIC, if nan_arg_ok st x || negb (Z.land (rh_own h) 1 =? 0) then None else Some [1])
   | XInf _ => (T_NAN, if (st =? 0) && is_nan x then None else Some [2])
   | XFin yq =>
       if Qltb yq 0 || Qltb 1 yq then (T_NAN, if (st =? 0) && is_nan x then None else Some [2])
+      else if (Qeq_bool yq 0 || Qeq_bool yq 1) && negb (Z.land (rh_own h) 1 =? 0) then
+        (* an own method IS the result at the end points (DeltaDist returns T, not Bounds) *)
+        (Z.lor T_SPECIAL dtag, if st =? 0 then None else Some [4])
       else if Qeq_bool yq 0 then
-        let r := if xeq (XFin 0) cbl then bl else XInf true in
+        let r := if xeq (XFin 0) (rh_cbl h) then rh_bl h else XInf true in
         (Z.lor T_SPECIAL (match r with XInf _ => T_INF | _ => 0 end), if (st =? 0) && xeq r x then None else Some (3 :: xdiag r))
       else if Qeq_bool yq 1 then
-        let r := if xeq (XFin 1) cbh then bh else XInf false in
+        let r := if xeq (XFin 1) (rh_cbh h) then rh_bh h else XInf false in
         (Z.lor T_SPECIAL (match r with XInf _ => T_INF | _ => 0 end), if (st =? 0) && xeq r x then None else Some (3 :: xdiag r))
       else
-        let tag := Z.lor T_REG T_REL in
-        match x, xm, c0, cm with
+        let tag := Z.lor (Z.lor T_REG T_REL) dtag in
+        match x, ri_xm it, ri_c0 it, ri_cm it with
         | XFin xq, XFin xmq, XFin c0q, XFin cmq =>
             if negb (st =? 0) then (tag, Some [4])
             else if negb (Qltb xmq xq && Qle_bool (xq - xmq) ((1001 # 1000) * e9 * Qabs xq + (2 # 1000000000000000))%Q) then (tag, Some [99])
-            else if negb (Qle_bool yq c0q) then (tag, Some (10 :: qdiag c0q))      (* CDF(x) < y *)
-            else if negb (Qltb cmq (yq + slack)) then (tag, Some (11 :: qdiag cmq))  (* CDF(x - tol) >= y: not the smallest *)
+            else if negb (if Z.land (rh_own h) 1 =? 0 then Qle_bool yq c0q                          (* generic: CDF(x) >= y, exactly *)
+                          else match ri_xp it, ri_cp it with                                          (* own method: CDF(x + tol) >= y *)
+                               | XFin xpq, XFin cpq => Qle_bool (xpq - xq) ((1001 # 1000) * e9 * Qabs xq + (2 # 1000000000000000))%Q
+                                                       && Qle_bool (yq - eps_level) cpq
+                               | _, _ => false
+                               end) then (tag, Some (10 :: qdiag c0q))
+            else if negb (Qltb cmq (yq + rel_slack_hi (rh_kind h) (rh_par h))) then (tag, Some (11 :: qdiag cmq))  (* CDF(x - tol) >= y: not the smallest *)
             else (Z.lor tag (if Qle_bool 0 xq then T_RIGHT else T_LEFT), None)
+        | XInf true, _, _, _ =>
+            (* -Inf: legitimate exactly when CDF is still >= y at the last finite probe -2^1023 *)
+            (Z.lor tag T_OVERFLOW,
+             match rh_cpl h with XFin c => if (st =? 0) && Qle_bool yq c then None else Some (12 :: 1 :: qdiag c) | _ => Some [12; 1] end)
+        | XInf false, _, _, _ =>
+            (Z.lor tag T_OVERFLOW,
+             match rh_cph h with XFin c => if (st =? 0) && Qltb c yq then None else Some (12 :: 0 :: qdiag c) | _ => Some [12; 0] end)
         | _, _, _, _ => (tag, Some [4])
         end
   end.
-Definition p_rel : parser (xreal * Z * (xreal * xreal * xreal * xreal)) :=
-  do y <- pX; do st <- pZ; do x <- pX; do xm <- pX; do c0 <- pX; do cm <- pX; pret (y, st, (x, xm, c0, cm)).
-Fixpoint run_rel_items (slack : Q) (bl bh cbl cbh : xreal) (items : list (xreal * Z * (xreal * xreal * xreal * xreal))) (idx tag : Z)
-  : Z * option (Z * list Z) :=
+Definition p_rel : parser relitem :=
+  do y <- pX; do st <- pZ; do x <- pZ; do xm <- pX; do c0 <- pX; do cm <- pX; do xp <- pX; do cp <- pX; do rst <- pZ; do ref <- pZ;
+  pret {| ri_y := y; ri_st := st; ri_xb := x; ri_xm := xm; ri_c0 := c0; ri_cm := cm; ri_xp := xp; ri_cp := cp; ri_rst := rst; ri_refb := ref |}.
+Definition p_relhdr : parser relhdr :=
+  do kind <- pZ; do par <- pX; do own <- pZ; do bl <- pX; do bh <- pX; do cbl <- pX; do cbh <- pX; do cpl <- pX; do cph <- pX;
+  pret {| rh_kind := kind; rh_par := par; rh_own := own; rh_bl := bl; rh_bh := bh; rh_cbl := cbl; rh_cbh := cbh; rh_cpl := cpl; rh_cph := cph |}.
+Fixpoint run_rel_items (h : relhdr) (items : list relitem) (idx tag : Z) : Z * option (Z * list Z) :=
   match items with
   | [] => (tag, None)
-  | (y, st, (x, xm, c0, cm)) :: rest =>
-      let '(t, r) := check_rel_y slack bl bh cbl cbh y st x xm c0 cm in
+  | it :: rest =>
+      let '(t, r) := check_rel_y h it in
       match r with
-      | None => run_rel_items slack bl bh cbl cbh rest (idx + 1) (Z.lor tag t)
+      | None => run_rel_items h rest (idx + 1) (Z.lor tag t)
       | Some dg => (Z.lor tag t, Some (idx, dg))
       end
+  end.
+Definition rel_plain (items : list relitem) : list (xreal * Z * xreal) :=
+  map (fun it => (ri_y it, ri_st it, decode_bits (ri_xb it))) items.
+
+(* ---------- Kolmogorov-Smirnov distance of a sorted sample against pw_cdf ----------
+   D = max_i max ((i+1)/n - cdf (v_i + tol), cdf (v_i - tol) - i/n) over the sorted draws v_0 <= ... <= v_(n-1):
+   a draw may sit up to the property's tolerance tol = 1e-9 |v| (+ the smallest positive float64) away from
+   the exact quantile (a draw that is exactly 0: looked at from just below 0) — at an atom that alone would
+   make the plain distance 1 — so the empirical cdf is
+   compared with the cdf shifted by tol to either side; this statistic is <= the distance of exact draws.
+   None: the sample is not sorted. *)
+Definition ks_tiny : Q := 1 # (2 ^ 1074).
+Fixpoint ks_scan (pw : pwf) (n : Q) (i : Z) (prev : option Q) (xs : list Q) (best : Q) : option Q :=
+  match xs with
+  | [] => Some best
+  | v :: r =>
+      if match prev with Some p => Qltb v p | None => false end then None else
+      let tol := (e9 * Qabs v)%Q in
+      let up := (inject_Z (i + 1) / n - pw_cdf pw (v + tol))%Q in
+      let dn := (pw_cdf pw (if Qeq_bool v 0 then - ks_tiny else v - tol) - inject_Z i / n)%Q in
+      ks_scan pw n (i + 1) (Some v) r (Qmaxb best (Qmaxb up dn))
   end.
 
 Definition valid_pw (pw : pwf) : bool := pw_wfb pw.
@@ -270,7 +414,7 @@ Definition check_C07 (line : list Z) : list Z :=
       match (do pw <- plist p_knot; do bl <- pQ; do bh <- pQ; do items <- plist p_item; pend (pw, bl, bh, items)) rest with
       | Some ((pw, bl, bh, items), _) =>
           if negb (valid_pw pw) then verdict V_MALFORMED 0 (-1) [] else
-          finish (run_pw_items pw bl bh (pw_scale pw) items 0 0)
+          finish (with_mono 0 items (run_pw_items pw bl bh items 0 0))
       | None => verdict V_MALFORMED 0 (-1) []
       end
   | 7 :: 1 :: rest =>
@@ -279,7 +423,7 @@ Definition check_C07 (line : list Z) : list Z :=
           if (n <? 0) || (200 <? n) || Qltb p 0 || Qltb 1 p then verdict V_MALFORMED 0 (-1) [] else
           let tab := if n <=? small_limit then cdf_table (binom_cdf_i n p) 0 (Z.to_nat (n + 1)) else fast_table (binom_table n p) in
           if negb (Z.of_nat (length tab) =? n + 1) then verdict V_MALFORMED 0 (-1) [98] else
-          finish (run_disc_items tab 0 n items 0 0)
+          finish (with_mono 0 items (run_disc_items tab 0 n items 0 0))
       | None => verdict V_MALFORMED 0 (-1) []
       end
   | 7 :: 2 :: rest =>
@@ -289,7 +433,7 @@ Definition check_C07 (line : list Z) : list Z :=
           let lo := hg_lo N K n in let hi := hg_hi N K n in
           let tab := if N <=? small_limit then cdf_table (hg_cdf_i N K n) lo (Z.to_nat (hi - lo + 1)) else fast_table (hg_table N K n) in
           if negb (Z.of_nat (length tab) =? hi - lo + 1) then verdict V_MALFORMED 0 (-1) [98] else
-          finish (run_disc_items tab lo hi items 0 0)
+          finish (with_mono 0 items (run_disc_items tab lo hi items 0 0))
       | None => verdict V_MALFORMED 0 (-1) []
       end
   | 7 :: 3 :: rest =>
@@ -321,12 +465,11 @@ Definition check_C07 (line : list Z) : list Z :=
               else if negb (xeq (XFin yq) y) then verdict V_MISMATCH tag 2 (qdiag yq)
               else if negb ((ist =? 0) && (draw =? inv)) then verdict V_MISMATCH tag 3 [ist; draw; inv]   (* draw = InvCDF(dist)(y), bit for bit *)
               else
-                let '(t, r) := check_pw_y pw bl bh (pw_scale pw) (XFin yq) ist (decode_bits inv) in
+                let '(t, r) := check_pw_y pw bl bh (XFin yq) ist (decode_bits inv) in
                 match r with
                 | None => verdict V_OK (Z.lor tag t) (-1) []
                 | Some dg => match dg with
                              | [99] => verdict V_MALFORMED tag 4 dg
-                             | 98 :: d => verdict V_XTOL (Z.lor tag t) 4 d
                              | _ => verdict V_MISMATCH (Z.lor tag t) 4 dg
                              end
                 end
@@ -334,13 +477,57 @@ Definition check_C07 (line : list Z) : list Z :=
       | None => verdict V_MALFORMED 0 (-1) []
       end
   | 7 :: 6 :: rest =>
-      match (do kind <- pZ; do bl <- pX; do bh <- pX; do cbl <- pX; do cbh <- pX; do items <- plist p_rel;
-             pend (kind, bl, bh, cbl, cbh, items)) rest with
-      | Some ((kind, bl, bh, cbl, cbh, items), _) =>
-          (* step functions (UDist) are evaluated exactly; a smooth float64 CDF is flat or noisy at the
-             1e-16 level where its derivative vanishes (an Epanechnikov kernel's edge, t near 0) *)
-          finish (run_rel_items (if kind =? 1 then 0 else eps_level) bl bh cbl cbh items 0 0)
+      match (do h <- p_relhdr; do items <- plist p_rel; do pairs <- plist p_pair; pend (h, items, pairs)) rest with
+      | Some ((h, items, pairs), _) =>
+          match with_mono (rel_mono_tol (rh_own h)) (rel_plain items) (run_rel_items h items 0 0) with
+          | (tag, None) =>
+              match run_pairs pairs 0 with
+              | Some (idx, dg) => verdict V_MISMATCH (Z.lor tag T_RAND) (1000 + idx) dg
+              | None => finish (match pairs with [] => tag | _ => Z.lor tag T_RAND end, None)
+              end
+          | r => finish r
+          end
       | None => verdict V_MALFORMED 0 (-1) []
+      end
+  | 7 :: 7 :: rest =>
+      match (do h <- p_relhdr; do src <- plist pZ; do st <- pZ; do consumed <- pZ; do y <- pX; do draw <- pZ; do it <- p_rel;
+             pend (h, src, (st, consumed, y), draw, it)) rest with
+      | Some ((h, src, (st, consumed, y), draw, it), _) =>
+          if existsb (fun v => (v <? 0) || (2 ^ 63 <=? v) || negb (Z.land v 1023 =? 0)) src || negb (Z.land (rh_own h) 2 =? 0)
+          then verdict V_MALFORMED 0 (-1) [] else
+          match rand_model (fun q => q) (map float64_of_int63 src) with
+          | None => verdict V_MALFORMED 0 (-1) []
+          | Some (yq, n) =>
+              let tag := Z.lor T_RAND (if (1 <? n)%nat then T_ZEROSKIP else 0) in
+              if negb (st =? 0) then verdict V_MISMATCH tag 0 [st]
+              else if negb (consumed =? Z.of_nat n) then verdict V_MISMATCH tag 1 [Z.of_nat n; consumed]
+              else if negb (xeq (XFin yq) y && xeq (XFin yq) (ri_y it)) then verdict V_MISMATCH tag 2 (qdiag yq)
+              else if negb ((ri_st it =? 0) && (draw =? ri_xb it)) then verdict V_MISMATCH tag 3 [ri_st it; draw; ri_xb it]   (* draw = InvCDF(dist)(y), bit for bit *)
+              else
+                let '(t, r) := check_rel_y h it in
+                match r with
+                | None => verdict V_OK (Z.lor tag t) (-1) []
+                | Some dg => match dg with
+                             | [99] => verdict V_MALFORMED tag 4 dg
+                             | _ => verdict V_MISMATCH (Z.lor tag t) 4 dg
+                             end
+                end
+          end
+      | None => verdict V_MALFORMED 0 (-1) []
+      end
+  | 7 :: 8 :: rest =>
+      match (do pw <- plist p_knot; do bl <- pQ; do bh <- pQ; do st <- pZ; do xs <- plist pQ; pend (pw, st, xs)) rest with
+      | Some ((pw, st, xs), _) =>
+          let n := Z.of_nat (length xs) in
+          if negb (valid_pw pw) || (n <? 1) then verdict V_MALFORMED 0 (-1) [] else
+          if negb (st =? 0) then verdict V_MISMATCH (Z.lor T_RAND T_KS) 0 [st] else
+          match ks_scan pw (inject_Z n) 0 None xs 0 with
+          | None => verdict V_MALFORMED 0 (-1) [97]
+          | Some d => if Qle_bool (d * d * inject_Z (2 * n)) ks_bound
+                      then verdict V_OK (Z.lor T_RAND T_KS) (-1) []
+                      else verdict V_MISMATCH (Z.lor T_RAND T_KS) 1 (qdiag d)
+          end
+      | None => verdict V_MISMATCH (Z.lor T_RAND T_KS) 2 []     (* a draw that is not a finite number *)
       end
   | 7 :: 5 :: rest =>
       match (do pw <- plist p_knot; do bl <- pQ; do bh <- pQ; do n <- pZ; do st <- pZ; do d <- pX; pend (pw, n, st, d)) rest with
